@@ -992,6 +992,39 @@ def check_bounds(ctx):
         ])
 
 
+def check_marker_writers(ctx):
+    """every block of a retired extent carries a marker bound to *its own* sector and to the blocks remaining from there:
+    both chunked writers (buffered and O_DIRECT) must pass (sector + offset, sectors - offset) to fill_retirement_markers and
+    write the chunk at sector + offset"""
+    from feoxlint import bounds as B
+    inst = "C10.marker/writers"
+    for fn in ("DiskIO::write_retirement_extent_buffered", "DiskIO::write_retirement_extent_direct"):
+        b = ctx.fn(fn, inst)
+        if b is None:
+            continue
+        f = B.flow(b)
+        fm = ctx.sites(b, R.call("format::fill_retirement_markers"), inst, exact=1)
+        for c in fm:
+            n = b.nodes[c]
+            sec = f.operand(n.ev["args"][1], c)
+            rem = f.operand(n.ev["args"][2], c)
+            def strip_cast(e):
+                while e.k == "cast":
+                    e = e.a[0]
+                return e
+            okS = sec.k == "bin" and sec.extra == "Add" and sec.a[0].k == "arg" and sec.a[0].extra[0] == 2 and strip_cast(sec.a[1]).k == "phi"
+            okR = rem.k == "bin" and rem.extra == "Sub" and rem.a[0].k == "arg" and rem.a[0].extra[0] == 3 and rem.a[1].k == "phi"
+            same = okS and okR and strip_cast(sec.a[1]).key() == rem.a[1].key()
+            ctx.check(okS, inst, "PROVENANCE", b.path, "markers of a chunk are bound to the chunk's own first sector (sector + offset)", b.where(c), {"sector": sec.show()[:80]})
+            ctx.check(okR, inst, "PROVENANCE", b.path, "and count the blocks remaining from there (sectors - offset)", b.where(c), {"remaining": rem.show()[:80]})
+            ctx.check(same, inst, "PROVENANCE", b.path, "both use the same chunk offset", b.where(c))
+        ws = [n for n in b.calls() if R.call_matches(n.ev, "DiskIO::write_sectors_sync")]
+        for n in ws:
+            at = f.operand(n.ev["args"][1], n.id)
+            ctx.check(at.k == "bin" and at.extra == "Add" and at.a[0].k == "arg" and at.a[0].extra[0] == 2, inst, "PROVENANCE", b.path,
+                      "the chunk is written at sector + offset", b.where(n.id), {"at": at.show()[:80]})
+
+
 def check_extent_len(ctx):
     """the documented layout pads a record to ceil(total_size / FEOX_BLOCK_SIZE) blocks; the token is computed over exactly that
     extent, so writer, reader, recovery and retirement must derive the extent length the same way (shared with C05.len)"""
@@ -1000,6 +1033,7 @@ def check_extent_len(ctx):
 
 
 def check(ctx):
+    check_marker_writers(ctx)
     check_extent_len(ctx)
     check_bounds(ctx)
     check_consts(ctx)
